@@ -69,6 +69,7 @@ func E(pairs ...string) []gprog.Edge {
 
 type group struct {
 	name   string
+	mode   string // mode of the top-level program
 	traces func(emit func(t *Trace))
 }
 
@@ -100,7 +101,7 @@ func Groups(quick bool) []group {
 				p.MaxSteps = 5
 			}
 			pp := p
-			gs = append(gs, group{name: "flat/" + pp.String(), traces: func(emit func(t *Trace)) {
+			gs = append(gs, group{name: "flat/" + pp.String(), mode: pp.Mode, traces: func(emit func(t *Trace)) {
 				cfgs := intConfigs(nodeKeys(&pp), intMax)
 				gprog.AllScripts(&pp, input, scriptCap, nil, func(s gprog.Script, o *gprog.Outcome) bool {
 					for ci, cfg := range cfgs {
@@ -139,7 +140,7 @@ func Groups(quick bool) []group {
 	}
 	for _, nk := range sortedKeys(nested) {
 		p := nested[nk]
-		gs = append(gs, group{name: "nested/" + nk, traces: func(emit func(t *Trace)) {
+		gs = append(gs, group{name: "nested/" + nk, mode: p.Mode, traces: func(emit func(t *Trace)) {
 			outer := append([]IntCfg{{}}, intConfigs(nodeKeys(p), 1)...)
 			// inner graph paths
 			type lvl struct {
@@ -215,7 +216,7 @@ func Groups(quick bool) []group {
 	}
 	for _, rk := range sortedKeys(rer) {
 		p := rer[rk]
-		gs = append(gs, group{name: "rerun/" + rk, traces: func(emit func(t *Trace)) {
+		gs = append(gs, group{name: "rerun/" + rk, mode: p.Mode, traces: func(emit func(t *Trace)) {
 			keys := nodeKeys(p)
 			gprog.AllScripts(p, input, scriptCap, nil, func(s gprog.Script, o *gprog.Outcome) bool {
 				for _, rr := range subsetsUpTo(keys, 2)[1:] {
@@ -277,7 +278,7 @@ func features(t *Trace) (cycleThroughSub bool, innerInts bool, beforeAfterStart 
 // Main is the entry point of the C05 and C06 check binaries.
 func Main(prop string) {
 	c := harness.Init(prop)
-	c.Res.Rule = "history = program (all small flat shapes in Pregel / all-predecessor / Workflow mode; curated nested graphs incl. cycles through a sub-graph node and a sub-graph in a sub-graph; nodes that ask for interrupt-and-rerun) x every set of <=2 interrupt-before/after points per nesting level x every sequence of branch outcomes x resume paradigm pattern (all Invoke / all Stream / alternating) x with/without checkpoint id x with/without state modifier; every history is executed call by call on the implementation through a byte-only in-memory store until the run completes. Non-trivial = history with >= 1 interrupt actually taken; distinct = distinct (program, points, script, pattern)."
+	c.Res.Rule = "history = program (all small flat shapes in Pregel / all-predecessor mode - the Workflow-mode histories are run by the Engine-S part -; curated nested graphs incl. cycles through a sub-graph node and a sub-graph in a sub-graph; nodes that ask for interrupt-and-rerun) x every set of <=2 interrupt-before/after points per nesting level x every sequence of branch outcomes x resume paradigm pattern (all Invoke / all Stream / alternating) x with/without checkpoint id x with/without state modifier; every history is executed call by call on the implementation through a byte-only in-memory store until the run completes. Non-trivial = history with >= 1 interrupt actually taken; distinct = distinct (program, points, script, pattern)."
 	c.Res.Assumptions = []string{
 		"deterministic node functions; nodes that ask for a re-run rebuild their input from graph state through a state pre-handler (as the statement presupposes)",
 		"histories whose uninterrupted model run fails (step limit, merge conflict) are only required to terminate",
@@ -300,6 +301,11 @@ func Main(prop string) {
 	}
 
 	for _, g := range Groups(quick) {
+		if g.mode == gprog.MWorkflow {
+			// eager scheduling: what an interrupt finds completed / running / not started depends on the schedule;
+			// these histories belong to the Engine-S part (checks/c05s, checks/c06s; lib/intr/sched.go)
+			continue
+		}
 		if !c.Mine(g.name) {
 			continue
 		}
@@ -372,22 +378,25 @@ func judge(c *harness.Ctx, prop string, t *Trace, verbose bool) (string, error) 
 		}
 	}
 	if err != nil {
-		cyc, inner, bas := features(t)
-		switch {
-		case prop == "C06" && sig == "before-ignored" && bas:
-			sig = "before-ignored-on-successor-of-start"
-		case cyc && inner && !strings.HasPrefix(sig, "stream-checkpoint"):
-			// histories in which a sub-graph node interrupts inside a cycle: one root cause (the sub-graph's
-			// checkpoint is handed to every later execution of that node), many symptoms
-			sig = "stale-subgraph-checkpoint-in-cycle:" + sig
-		case prop == "C06" && sig == "before-ignored" && bas:
-			sig = "before-ignored-on-successor-of-start"
-		}
-		return sig, err
+		return refineSig(prop, sig, t), err
 	}
 	c.Res.Validated++
 	if interrupts > 0 {
 		c.Sample(map[string]any{"history": t.String(), "calls": callSummary(res)})
 	}
 	return "", nil
+}
+
+// refineSig groups the symptoms of one root cause under one known-findings class.
+func refineSig(prop, sig string, t *Trace) string {
+	cyc, inner, bas := features(t)
+	switch {
+	case prop == "C06" && sig == "before-ignored" && bas:
+		return "before-ignored-on-successor-of-start"
+	case cyc && inner && !strings.HasPrefix(sig, "stream-checkpoint"):
+		// histories in which a sub-graph node interrupts inside a cycle: one root cause (the sub-graph's
+		// checkpoint is handed to every later execution of that node), many symptoms
+		return "stale-subgraph-checkpoint-in-cycle:" + sig
+	}
+	return sig
 }
